@@ -361,6 +361,20 @@ func (p *Play) betweenOps(phase string) {
 				}
 				joins = append(joins, pt.JoinPlayer{PlayerID: p.SS.NewPlayerID(), RedeemChips: p.chipsAmount(), Seat: seat})
 			}
+			if len(leaves) > 0 && r.Intn(4) == 0 {
+				// a batch that cannot fit: the first leaver is named twice (still one freed seat) and there is one
+				// newcomer more than the free seats plus the leavers allow. It must be refused as a whole.
+				leaves = append(leaves, leaves[0])
+				joins = joins[:0]
+				for k := 0; k < len(free)+len(leaves); k++ {
+					joins = append(joins, pt.JoinPlayer{PlayerID: p.SS.NewPlayerID(), RedeemChips: p.chipsAmount(), Seat: -1})
+				}
+				p.C.Feature("batch-update-that-does-not-fit")
+				if op := p.UpdateBatch(phase, joins, leaves); op.Err == "" {
+					p.C.Violate("C03/invalid-operation-accepted/update", fmt.Sprintf("a batch update with %d newcomers for %d free seats and leavers %v was accepted", len(joins), len(free), leaves), p.witness())
+				}
+				break
+			}
 			if len(joins)+len(leaves) > 0 {
 				p.C.Feature("batch-update")
 				p.UpdateBatch(phase, joins, leaves)
